@@ -316,7 +316,9 @@ class EnumGen:
         out = []
         if items:
             out.append('#[strum(%s)]' % ', '.join(items))
-        if e.repr:
+        if e.extra.get('repr_raw'):
+            out.append('#[repr(%s)]' % e.extra['repr_raw'])
+        elif e.repr:
             out.append('#[repr(%s)]' % e.repr)
         for x in e.extra.get('enum_attrs', []):
             out.append(x if self.sp == 'strum' else x.replace('strum::', self.sp + '::'))
@@ -743,6 +745,12 @@ class EnumGen:
         out = []
         for line in e.extra.get('disc_asserts', []):
             out.append(line.replace('$D', D))
+        raw = e.extra.get('repr_raw') or e.repr
+        if raw:
+            # reference: a hand-written field-less enum with the same repr, variants and explicit discriminants
+            out.append('#[repr(%s)] #[derive(Clone, Copy)] enum RefDiscLayout { %s }' % (raw, ', '.join(
+                '%s%s' % (v.ident, (' = %s' % (v.discr_expr if v.discr_expr is not None else v.discr)) if (v.discr is not None or v.discr_expr is not None) else '')
+                for v in e.variants)))
         out += ['fn op_disc(a: &[&str]) -> String {',
                 '    let alt: u8 = a[2].parse().unwrap();',
                 '    let v = match mk(a[1], alt, "") { Some(v) => v, None => return "bad-op".to_string() };',
@@ -767,7 +775,7 @@ class EnumGen:
         else:
             out.append('    let pt = "ok".to_string();')
         out += ['    format!("name={} from={} from_ref={} into={} val={} eval={} pt={} size_ok={}", hex(short.as_bytes()), hex(format!("{:?}", f1).as_bytes()), hex(format!("{:?}", f2).as_bytes()), into, (f1 as %s) as i128, ev, pt, %s)'
-                % (R if e.repr else 'isize', ('core::mem::size_of::<%s>() == core::mem::size_of::<%s>()' % (D, R)) if e.repr else 'true'),
+                % (R if e.repr else 'isize', ('core::mem::size_of::<%s>() == core::mem::size_of::<RefDiscLayout>() && core::mem::align_of::<%s>() == core::mem::align_of::<RefDiscLayout>()' % (D, D)) if (e.repr or e.extra.get('repr_raw')) else 'true'),
                 '}']
         return out, [('disc', 'op_disc')]
 
@@ -831,7 +839,17 @@ class EnumGen:
                 '}',
                 # the table type derives these
                 'fn _table_traits<X: core::fmt::Debug + Clone + Default + PartialEq + Eq + core::hash::Hash>() {} fn _chk_table() { _table_traits::<%s<u8>>(); }' % TB]
-        return out, [('table', 'op_table')]
+        tf = e.extra.get('table_fields')
+        ops = [('table', 'op_table')]
+        if tf:
+            # the struct's private fields are visible in this module: access them by the names the model computes
+            out += ['fn op_tablefields(a: &[&str]) -> String {',
+                    '    let t: %s<i64> = %s::filled(5);' % (TB, TB),
+                    '    let s: i64 = 0 %s;' % ' '.join('+ t.%s' % f for f in tf),
+                    '    if s == %d { "%s".to_string() } else { "bad-sum".to_string() }' % (5 * len(tf), ' '.join(hx(f) for f in tf)),
+                    '}']
+            ops.append(('tablefields', 'op_tablefields'))
+        return out, ops
 
     def field_code(self, expr, t):
         dty = field_ty(t, inst=True)
